@@ -24,6 +24,9 @@ type thread struct {
 	name    string
 	polls   int
 	where   string
+	// the symbolic-schedule flag (rt.SymSched) belongs to the goroutine that set it: it is saved
+	// when the goroutine is descheduled, restored when it runs again, inherited by `go`
+	symSched bool
 }
 
 type channel struct {
@@ -70,12 +73,14 @@ func (i *Interp) spawn(fr *frame, pos token.Pos, fn value, args []value) {
 		i.unsupported("more than %d live goroutines", i.cfg.MaxThreads)
 	}
 	t := i.newThread(name)
+	t.symSched = i.symSched
 	go func() {
 		defer close(t.exited)
 		<-t.wake
 		if t.killed {
 			return
 		}
+		i.symSched = t.symSched
 		defer func() {
 			r := recover()
 			t.done = true
@@ -231,6 +236,7 @@ func (i *Interp) yield(cond func() bool) {
 		return
 	}
 	i.switches++
+	cur.symSched = i.symSched
 	i.cur = next
 	next.blocked = nil
 	next.wake <- struct{}{}
@@ -242,6 +248,7 @@ func (i *Interp) afterWake(t *thread) {
 	if t.killed {
 		panic(pathAbort{kind: "killed"})
 	}
+	i.symSched = t.symSched
 	if i.pendingAbort != nil && t == i.threads[0] {
 		pa := *i.pendingAbort
 		i.pendingAbort = nil
